@@ -45,10 +45,11 @@ func (n *Extension) Negotiate(opt httphead.Option) (accept httphead.Option, err 
 	{
 		offer := n.params.ServerMaxWindowBits
 		want := want.ServerMaxWindowBits
-		if offer > want {
+		if offer.Defined() && (!want.Defined() || want > offer) {
 			// A server declines an extension negotiation offer
 			// with this parameter if the server doesn't support
-			// it.
+			// it. Accepting means to send back the parameter with the
+			// same or smaller value as the offer.
 			return accept, nil
 		}
 	}
